@@ -408,7 +408,15 @@ func main() {
 				case "Server.dispatch":
 					src := nodeString(fset, names, d.Body)
 					lock, unlock, call := strings.Index(src, "dispatchMutex.Lock()"), strings.Index(src, "defer server.dispatchMutex.Unlock()"), strings.Index(src, "handleMessage(")
-					facts["dispatchHoldsMutex"] = lock >= 0 && unlock > lock && call > unlock
+					// exactly: Lock; defer Unlock; return handleMessage(...) - nothing conditional about the lock
+					exact := len(d.Body.List) == 3
+					if exact {
+						_, isExpr := d.Body.List[0].(*ast.ExprStmt)
+						_, isDefer := d.Body.List[1].(*ast.DeferStmt)
+						_, isRet := d.Body.List[2].(*ast.ReturnStmt)
+						exact = isExpr && isDefer && isRet
+					}
+					facts["dispatchHoldsMutex"] = exact && lock >= 0 && unlock > lock && call > unlock
 				case "Server.startConn":
 					src := nodeString(fset, names, d.Body)
 					add, goat := strings.Index(src, "AddConn("), strings.Index(src, "go func()")
